@@ -355,16 +355,16 @@ pub fn candidates(case: &Case) -> Vec<Case> {
                         out.push(Case::Iter(x));
                     }
                 }
-                crate::iters::Container::BitsGrown { frozen, zeros, via_extend, tail } => {
+                crate::iters::Container::BitsGrown { frozen, zeros, via_extend, tail, patches } => {
                     for t in string_candidates(tail) {
                         let mut x = c.clone();
-                        x.container = crate::iters::Container::BitsGrown { frozen: *frozen, zeros: *zeros, via_extend: *via_extend, tail: t };
+                        x.container = crate::iters::Container::BitsGrown { frozen: *frozen, zeros: *zeros, via_extend: *via_extend, tail: t, patches: patches.clone() };
                         out.push(Case::Iter(x));
                     }
                     for z in [0, *zeros / 2, zeros.saturating_sub(512), zeros.saturating_sub(1)] {
                         if z < *zeros {
                             let mut x = c.clone();
-                            x.container = crate::iters::Container::BitsGrown { frozen: *frozen, zeros: z, via_extend: *via_extend, tail: tail.clone() };
+                            x.container = crate::iters::Container::BitsGrown { frozen: *frozen, zeros: z, via_extend: *via_extend, tail: tail.clone(), patches: patches.clone() };
                             out.push(Case::Iter(x));
                         }
                     }
